@@ -299,6 +299,7 @@ CHECKS["C12"] = {
         plain("regress", "^TestRegress"),
         rapid("direct", "^TestDirect$", 4000, 150000, qs=4, ts=16),
         rapid("e2e", "^TestSwapMelt$", 360, 10000, qs=12, ts=16),
+        rapid("wallet", "^TestWalletP2PK$", 120, 4000, qs=4, ts=16),
     ],
 }
 
@@ -319,6 +320,7 @@ CHECKS["C13"] = {
         rapid("direct", "^TestDirect$", 3000, 100000, qs=4, ts=16),
         rapid("helper_inputs", "^TestHelperInputs$", 600, 20000, qs=2, ts=8),
         rapid("e2e", "^TestSwap$", 360, 8000, qs=10, ts=16),
+        rapid("wallet", "^TestWalletHTLC$", 120, 4000, qs=4, ts=16),
     ],
 }
 
